@@ -15,9 +15,13 @@ import time
 VERIF = os.path.dirname(os.path.dirname(os.path.abspath(__file__)))
 REPO = os.environ.get("VERIF_REPO", "/repo")
 SPEC = os.path.join(VERIF, "spec")
-OUT = os.path.join(VERIF, "out")
+# VERIF_REPO lets the same checks run against a scratch worktree (mutation testing) without
+# touching /repo; binaries, scratch output and evidence then live under a suffix of their own.
+_SFX = "" if REPO == "/repo" else "-" + hashlib.sha1(REPO.encode()).hexdigest()[:8]
+OUT = os.path.join(VERIF, "out" + _SFX)
 BUILD = os.path.join(VERIF, ".build")
-ASTH = os.path.join(BUILD, "asth")
+ASTH = os.path.join(BUILD, "asth" + _SFX)
+EVID = os.path.join(VERIF, "evidence") if not _SFX else os.path.join(OUT, "evidence")
 NCPU = os.cpu_count() or 4
 
 GOENV = dict(os.environ, GOFLAGS="-mod=mod", GOPROXY="off", GOSUMDB="off", GOTOOLCHAIN="local",
@@ -44,14 +48,15 @@ def build_harness():
     binary is made from /repo's CURRENT working tree with the verif hooks enabled."""
     os.makedirs(BUILD, exist_ok=True)
     hdir = os.path.join(VERIF, "harness")
-    shutil.copyfile(os.path.join(REPO, "go.sum"), os.path.join(hdir, "go.sum.repo"))
-    # go.sum of the harness = repo's go.sum + rapid (committed in go.sum.extra)
+    if _SFX:
+        src, hdir = hdir, os.path.join(BUILD, "harness" + _SFX)
+        shutil.rmtree(hdir, ignore_errors=True)
+        shutil.copytree(src, hdir)
+        gm = open(os.path.join(hdir, "go.mod")).read().replace("=> /repo/client", "=> %s/client" % REPO).replace("=> /repo\n", "=> %s\n" % REPO)
+        open(os.path.join(hdir, "go.mod"), "w").write(gm)
+    # go.sum of the harness starts from the repository's (no network: nothing else can be fetched)
     with open(os.path.join(hdir, "go.sum"), "w") as f:
         f.write(open(os.path.join(REPO, "go.sum")).read())
-        extra = os.path.join(hdir, "go.sum.extra")
-        if os.path.exists(extra):
-            f.write(open(extra).read())
-    os.remove(os.path.join(hdir, "go.sum.repo"))
     t0 = time.time()
     p = subprocess.run(["go", "build", "-tags", "verif", "-o", ASTH, "."], cwd=hdir, env=GOENV,
                        stdout=subprocess.PIPE, stderr=subprocess.STDOUT, text=True)
@@ -232,10 +237,10 @@ def match_finding(prop, signature):
 # ------------------------------------------------------------------------------- evidence
 
 def write_evidence(prop, tier, coverage, wall, violations=0, assumptions=None, level="model_checking"):
-    os.makedirs(os.path.join(VERIF, "evidence"), exist_ok=True)
+    os.makedirs(EVID, exist_ok=True)
     ev = {"property_id": prop, "tier": tier, "seed": seed(), "level": level, "coverage": coverage,
           "assumptions": assumptions or [], "wall_s": round(wall, 2), "violations": violations}
-    with open(os.path.join(VERIF, "evidence", prop + ".json"), "w") as f:
+    with open(os.path.join(EVID, prop + ".json"), "w") as f:
         json.dump(ev, f, indent=1, sort_keys=True)
         f.write("\n")
 
